@@ -15,7 +15,7 @@ META = {
              "C30_finite - if qpos, qvel, qacc entries pass the check (isBad = false) then they are finite with |value| <= 1e10 and for |h| <= 1 the exact-real Euler update satisfies |qvel'| <= 2e10 and |qpos'| <= 3e10 < 2^1023 (scalar joints). "
              "Tied by exact correspondence on every run: mju_isBad on boundary bit patterns (+-mjMAXVAL, neighbours, infinities, NaN payloads, denormals, zeros, random), the three check functions called on generated models with NaN/Inf/huge values injected at every index (number, lastinfo, reset/unchanged classification by bitwise comparison with a reset mjData). "
              "Observed by oracle only (not proved): after mj_step with injections into qpos, qvel, qfrc_applied, xfrc_applied, ctrl, act for every integrator, the state is finite or the warning was raised, and with autoreset the state is always finite and the simulation restarted (time = nsteps*h). "
-             "Not covered: IEEE rounding inside the Euler update; finiteness of quaternion and activation paths; that mj_forward never produces a non-finite state component with finite qacc (observed only); the sleep-filtered loops of mj_checkVel/mj_checkAcc are covered by the theorem (arbitrary loop order) AND by the tie: sleep models (mjENBL_SLEEP, trees initialised asleep in front of / behind awake ones) run the same injections with the loop order read from dof_awake_ind, and mj_step is run with bad forces/values at awake dofs whose index is >= nv_awake; a bad value in a dof of a SLEEPING tree is by design not visited (model and code agree) and is not an oracle case."),
+             "Not covered: IEEE rounding inside the Euler update; finiteness of quaternion and activation paths; that mj_forward never produces a non-finite state component with finite qacc (observed only); C30_badctrl / C30_warning (added): the bad-control scan of mj_fwdActuation over ALL nu entries of the clamped local control vector - nothing bad: unchanged; else BADCTRL counter + 1, lastinfo = first bad control index, every control treated as 0 - tied on multi-input control models (SO3 orientation servos, PID servos with 2-3 inputs mixed with single-input actuators, so nu > nactuator and control index != actuator index) with a bad value at every control index (warning stat exact, forces and act_dot bitwise equal to the all-zero-control reference), and mj_step on these models is under the finite-state oracle plus the clause 'bad control => BADCTRL raised with that index'; the sleep-filtered loops of mj_checkVel/mj_checkAcc are covered by the theorem (arbitrary loop order) AND by the tie: sleep models (mjENBL_SLEEP, trees initialised asleep in front of / behind awake ones) run the same injections with the loop order read from dof_awake_ind, and mj_step is run with bad forces/values at awake dofs whose index is >= nv_awake; a bad value in a dof of a SLEEPING tree is by design not visited (model and code agree) and is not an oracle case."),
     "note": "Trusted: Coq kernel, std-lib FloatAxioms (primitive float specification) and real-number axioms, Flocq library; hand-written model Model/Checks.v (mjData abstracted to core+warnings, mj_resetData = initial data + zero warnings, mj_forward abstract); correspondence harness (gcc, driver c30_checks.c, mjgen.h models).",
     "assumptions": ["model abstracts mjData into (core, warnings); reset/forward are abstract; tie is differential testing on the cases of this run",
                     "IEEE rounding is outside C30_finite (real arithmetic)"],
@@ -129,12 +129,33 @@ def run(ctx):
                     for ar in ((1,) if quick and j else (1, 0)):
                         v = rng.choice(bad_vals + ([1e30, -1e30] if where >= 2 else [9e9]))
                         sreq.append((mo, integ, ar, where, rng.randrange(0, 40), v, rng.choice([1, 1, 2])))
+    # multi-input control models (nu > nactuator): bad value at every control index for the scan of mj_fwdActuation
+    cseeds = [rng.randrange(1, 10 ** 6) for _ in range(4 if quick else 30)]
+    ctrl_vals = [float("nan"), float("inf"), -float("inf"), 1e300, -1.0000000001e10, 9e9]
+    kreq = []    # (seed, pre_n, pre_l, [(idx, value)])
+    for cs_ in cseeds:
+        for idx in range(14):
+            vs = [ctrl_vals[(idx + k) % len(ctrl_vals)] for k in range(2 if quick else 6)]
+            for v in vs:
+                kreq.append((cs_, rng.choice([0, 0, 2, 7]), rng.randrange(0, 9), [(idx, v)]))
+        for rep_ in range(4 if quick else 20):
+            kreq.append((cs_, rng.choice([0, 1, 50]), rng.randrange(0, 9), [(rng.randrange(14), rng.choice(ctrl_vals + [0.3, -2.0])) for _ in range(rng.randrange(0, 4))]))
+    for cs_ in cseeds:
+        for integ in (0, 1, 2, 3):
+            for idx in range(0, 14, 1 if not quick else 2):
+                v = ctrl_vals[(idx + integ) % 5]
+                sreq.append((("ctrl", cs_, 0, 0), integ, 1 if (idx + integ) % 3 else 0, 4, idx, v, rng.choice([1, 1, 2])))
     inp = ["M", "B %d %s" % (len(pats), " ".join("%x" % p for p in pats))]
     for (mo, kind, ar, pn, pl, inj) in creq:
         inp.append("%s %d %d %d %d %d %d %d %d %s" % ("Z" if mo[0] == "sleep" else "C", mo[-3], mo[-2], mo[-1], kind, ar, pn, pl, len(inj),
                                                        " ".join("%d %x" % (i, bits(v)) for i, v in inj)))
     for (mo, integ, ar, where, idx, v, ns) in sreq:
-        inp.append("%s %d %d %d %d %d %d %d %x %d" % ("T" if mo[0] == "sleep" else "S", mo[-3], mo[-2], mo[-1], integ, ar, where, idx, bits(v), ns))
+        if mo[0] == "ctrl":
+            inp.append("W %d %d %d %d %x %d" % (mo[1], integ, ar, idx, bits(v), ns))
+        else:
+            inp.append("%s %d %d %d %d %d %d %d %x %d" % ("T" if mo[0] == "sleep" else "S", mo[-3], mo[-2], mo[-1], integ, ar, where, idx, bits(v), ns))
+    for (cs_, pn, pl, inj) in kreq:
+        inp.append("K %d %d %d %d %s" % (cs_, pn, pl, len(inj), " ".join("%d %x" % (i, bits(v)) for i, v in inj)))
     rc, out, err = ctx.run(exe, "\n".join(inp) + "\n", timeout=900)
     lines = out.split("\n")
     if rc != 0 or len(lines) < len(inp):
@@ -221,6 +242,7 @@ def run(ctx):
     # ------------------------------------------------------------------ mj_step oracle
     wnames = ["qpos", "qvel", "qfrc_applied", "xfrc_applied", "ctrl", "act", "none"]
     nstep_bad = 0
+    nctrlstep = 0
     nsleepstep = 0
     nerr_noreset = 0
     byclass = {}
@@ -235,12 +257,13 @@ def run(ctx):
     for k, (mo, integ, ar, where, idx, v, ns) in enumerate(sreq):
         line = lines[2 + len(creq) + k]
         issleep = mo[0] == "sleep"
-        mdesc = ({"sleep_model": {"ntree": mo[1], "asleep_mask": mo[2], "shape": mo[3]}, "index_is": "k-th awake dof"} if issleep else
+        isctrl = mo[0] == "ctrl"
+        mdesc = {"multi_input_ctrl_model_seed": mo[1]} if isctrl else ({"sleep_model": {"ntree": mo[1], "asleep_mask": mo[2], "shape": mo[3]}, "index_is": "k-th awake dof"} if issleep else
                  {"seed": mo[0], "feat": mo[1], "nbody": mo[2]})
         case = {"op": "mj_step", "model": mdesc, "integrator": integ, "autoreset": ar,
                 "inject": wnames[where], "index": idx, "value_bits": "%016x" % bits(v), "nsteps": ns}
         t = line.split()
-        if line.startswith("ERR") or len(t) != 6 + 14 + (3 if issleep else 0):
+        if line.startswith("ERR") or len(t) != 6 + 14 + (3 if issleep else 5 if isctrl else 0):
             ctx.broken.append(("correspondence", "driver reply unusable", line[:200] + " for " + str(case)))
             continue
         errf, fin = int(t[0]), int(t[1])
@@ -250,6 +273,12 @@ def run(ctx):
         if issleep:
             case["nv"], case["nv_awake"], case["dof"] = int(t[20]), int(t[21]), int(t[22])
             nsleepstep += int(t[21]) < int(t[20])
+        if isctrl:
+            case["nu"], case["nactuator"], case["ctrl_index"] = int(t[20]), int(t[21]), nidx
+            if int(t[22]):      # the scan sees the control clamped to ctrlrange (NaN passes through mju_clip)
+                lo_, hi_ = unbits(int(t[23], 16)), unbits(int(t[24], 16))
+                v = v if v != v else min(max(v, lo_), hi_)
+            nctrlstep += int(t[20]) > int(t[21]) and nidx >= int(t[21])
         vclass = "nan" if v != v else "inf" if abs(v) == math.inf else "over-limit" if abs(v) > MAXVAL else "within-limit"
         finite_v = v == v and abs(v) != math.inf
         if where == 5 and not finite_v:
@@ -268,6 +297,9 @@ def run(ctx):
         hsum = 0.0
         for _ in range(ns):
             hsum += h
+        if isctrl and not errf and py_bad(v) and not (w[W_CTRL][0] >= 1 and w[W_CTRL][1] == nidx):
+            sviol("impl_violation", case, expected="bad control at index %d: BADCTRL warning raised with lastinfo %d" % (nidx, nidx),
+                  observed="BADCTRL=%s" % (w[W_CTRL],), signature=dict(sig, **{"site": "mj_fwdActuation", "class": "badctrl-warning-missing"}), theorem="C30_badctrl")
         if errf and not ar:
             nerr_noreset += 1        # autoreset disabled by the user and an engine error on a blown-up state: outside the property
         elif errf:
@@ -287,7 +319,54 @@ def run(ctx):
                 sviol("impl_violation", case, expected="finite state or bad-value warning raised", observed=line, signature=sig, theorem="C30 oracle")
             if injected_bad and where in (0, 1) and not w[W_QPOS if where == 0 else W_QVEL][0] >= 1:
                 sviol("impl_violation", case, expected="warning raised for injected bad value", observed=line, signature=sig, theorem="C30 oracle")
-    ctx.cov["evaluations"] = len(pats) + len(creq) + len(sreq)
+    # ------------------------------------------------------------------ bad-control scan (mj_forward on multi-input models)
+    coq_k = []
+    kept_k = []
+    nk_beyond = 0
+    kbase = 2 + len(creq) + len(sreq)
+    for k, (cs_, pn, pl, inj) in enumerate(kreq):
+        line = lines[kbase + k]
+        case = {"op": "mj_forward (bad-control scan)", "multi_input_ctrl_model_seed": cs_, "pre": [pn, pl], "inject": [[i, "%016x" % bits(v)] for i, v in inj],
+                "base_controls": "0.1*(i+1)"}
+        parts = line.split("|")
+        if line.startswith("ERR") or len(parts) != 5 or "ERR" in parts[4]:
+            ctx.broken.append(("correspondence", "driver reply unusable (mode K)", line[:200] + " for " + str(case)))
+            continue
+        nu_, nact_ = map(int, parts[0].split())
+        lt = parts[1].split()
+        lims = [(int(lt[3 * i]), unbits(int(lt[3 * i + 1], 16)), unbits(int(lt[3 * i + 2], 16))) for i in range(nu_)]
+        ctrl = [unbits(int(x, 16)) for x in parts[2].split()]
+        num, last = map(int, parts[3].split())
+        zeroed = int(parts[4].split()[0])
+        case["nu"], case["nactuator"] = nu_, nact_
+        clamped = [(x if (not l or x != x) else min(max(x, lo), hi)) for x, (l, lo, hi) in zip(ctrl, lims)]
+        first = next((i for i, x in enumerate(clamped) if py_bad(x)), None)
+        sig = {"site": "mj_fwdActuation", "class": "bad-control scan"}
+        if first is None:
+            if (num, last) != (pn, pl):
+                ctx.violation("impl_violation", case, expected="no bad control: BADCTRL unchanged %s" % ((pn, pl),), observed=(num, last), signature=sig, theorem="C30_badctrl")
+        else:
+            nk_beyond += first >= nact_
+            if not (num == pn + 1 and last == first and zeroed):
+                ctx.violation("impl_violation", case, expected="bad control at index %d (nu=%d, nactuator=%d): BADCTRL = (%d, %d) and all controls treated as 0" % (first, nu_, nact_, pn + 1, first),
+                              observed={"BADCTRL": [num, last], "forces_equal_zero_control_reference": zeroed}, signature=sig, theorem="C30_badctrl")
+            nontriv.add(("ctrl", cs_, first, bits(clamped[first])))
+        coq_k.append("([%s], %s, %d, %d, (%s, %d, %s))" % ("; ".join("(%s, (%s)%%float, (%s)%%float)" % ("true" if l else "false", F.fhex(lo), F.fhex(hi)) for (l, lo, hi) in lims),
+                                                         F.flist(ctrl), pn, pl, "true" if (num, last) != (pn, pl) else "false", num, ("(%d)" % last) if last < 0 else str(last)))
+        kept_k.append((case, line))
+    checker = ("fun c => match c with (lims, ctrl, n0, l0, (f, n1, l1)) => "
+               "let cl := map (fun p => match p with ((l, lo, hi), x) => clip_ctrl l lo hi x end) (combine lims ctrl) in "
+               "match check_ctrl_summary cl n0 l0 with (f', n', l') => Bool.eqb f f' && (n1 =? n')%Z && (l1 =? l')%Z end end")
+    fails = ctx.coq_eval("c30_ctrl", "From Coq Require Import ZArith Bool PrimFloat List.\nFrom MJV Require Import Model.Checks.\nOpen Scope Z_scope.",
+                         coq_k, checker, shard=300)
+    for i in fails[:3]:
+        ctx.violation("correspondence", kept_k[i][0], expected="Model/Checks.v check_ctrl_summary", observed=kept_k[i][1][-80:], found_input=False,
+                      theorem="correspondence mj_fwdActuation bad-control scan")
+    ncorr += len(fails)
+    ctx.cov["support"]["badctrl_scan_cases"] = len(kreq)
+    ctx.cov["support"]["badctrl_first_bad_index_beyond_nactuator"] = nk_beyond
+    ctx.cov["support"]["step_cases_bad_ctrl_index_beyond_nactuator"] = nctrlstep
+    ctx.cov["evaluations"] = len(pats) + len(creq) + len(sreq) + len(kreq)
     ctx.cov["distinct_nontrivial"] = len(nontriv) + nb_bad
     ctx.cov["rule"] = ("mju_isBad: fixed boundary bit patterns + random (uniform bits, +-2000 ulp around mjMAXVAL, log-uniform magnitudes 1e8..1e12, NaN payloads); "
                        "check functions: for each of %d generated models and each kind, a bad value at every index in turn with autoreset on/off, plus random multi-injections; "
